@@ -247,9 +247,7 @@ def run_cases(ctx, cases, n_mut=2):
         ctx.count(f"workers={len(case['nets'])}")
         if status.startswith("error:ValueError:Detected") or status.startswith("error:AssertionError:Test node"):
             # TestNode.validate() is called by the parser itself (parse_object_trees) and raised
-            dbl = case.get("suite") and any(
-                sum(1 for o in t["objs"].values() if o["get"] and not o["get_state"]) >= 2
-                for t in case["suite"]["tests"])
+            dbl = gl.double_clone_suite(case)
             ctx.violate("double-clone" if dbl else "validate-rejects",
                         "TestNode.validate() rejects a node while parsing: " + status[:300], dict(case))
             ctx.case(brief(case), nontrivial=True)
@@ -257,9 +255,7 @@ def run_cases(ctx, cases, n_mut=2):
         if status.startswith("error:Timeout"):
             # the implementation's own non-termination (bounded by graphlib.run_case): reported only when it can be
             # tied to a finding (double-clone shape, or it terminates under a finding's minimal fix)
-            dbl = case.get("suite") and not case["suite"].get("path") and any(
-                sum(1 for o in t["objs"].values() if o["get"] and not o["get_state"]) >= 2
-                for t in case["suite"]["tests"])
+            dbl = gl.double_clone_suite(case)
             ctx.violate("double-clone" if dbl else "parser-timeout",
                         "the parser did not terminate within the time bound on this input", dict(case))
             ctx.case(brief(case), nontrivial=True)
